@@ -72,7 +72,11 @@ def check(index, ctx):
                 continue
             first = min(gw, key=lambda e: e["seq"])
             targets = sorted({a for e in gw for a in e["target"]})
-            checks = [e for e in _pipe.evs(res, "expects_grad_check") if e["seq"] < first["seq"] and not (set(e["loops"]) & set(first["loops"]))]
+            checks = [e for e in _pipe.evs(res, "expects_grad_check") if e["seq"] < first["seq"] and not (set(e["loops"]) & set(first["loops"])) and e.get("strength") == "full"]
+            weak = [e for e in _pipe.evs(res, "expects_grad_check") if e.get("strength") != "full"]
+            for e in weak[:1]:
+                ctx.violated("R3", f"{e['validator'].split('.')[-1]}: validator does not test requires_grad and (is_leaf or retains_grad)",
+                             "the up-front validator accepts tensors that cannot receive a .grad (e.g. a frozen leaf): they are rejected later, after other .grad fields were written", e["loc"])
             covered = {a for e in checks for a in (e["target"] or [])}
             # discovered leaves are leaf tensors requiring grad by construction (AccumulateGrad.variable): their check cannot fail
             missing = [a for a in targets if a not in covered and not a.startswith("leaves(")]
